@@ -38,32 +38,42 @@ theorem return_511_any_phase (p : Nat) : genState 511 (genState p 1) = genState 
   rw [← genState_add, Nat.add_comm, genState_add, return_511]
 
 attribute [local irreducible] genBits genState in
-/-- every output index repeats with period 511 (stated on prefixes: the bit at index `n + 511` of any long enough
-    run equals the bit at index `n`) -/
-theorem bit_periodic (n m : Nat) (h : n + 511 < m) :
-    (genBits m 1).getD (n + 511) false = (genBits m 1).getD n false := by
+/-- from any register that returns to itself after 511 steps, every output index repeats with period 511 -/
+theorem bit_periodic_of_return (g : Nat) (hg : genState 511 g = g) (n m : Nat) (h : n + 511 < m) :
+    (genBits m g).getD (n + 511) false = (genBits m g).getD n false := by
   obtain ⟨r, rfl⟩ : ∃ r, m = 511 + r := ⟨m - 511, by omega⟩
   have hn : n < r := by omega
   -- the tail restarts from register 1
-  have e1 : (genBits (511 + r) 1).getD (n + 511) false = (genBits r 1).getD n false := by
-    have hs := genBits_add 511 r 1
-    rw [return_511] at hs
-    generalize genBits (511 + r) 1 = L at hs ⊢
-    generalize hP : genBits 511 1 = P at hs
+  have e1 : (genBits (511 + r) g).getD (n + 511) false = (genBits r g).getD n false := by
+    have hs := genBits_add 511 r g
+    rw [hg] at hs
+    generalize genBits (511 + r) g = L at hs ⊢
+    generalize hP : genBits 511 g = P at hs
     have hP' : P.length = 511 := by rw [← hP, genBits_length]
     subst hs
     have hi : n + 511 - 511 = n := by omega
     rw [List.getD_eq_getElem?_getD, List.getElem?_append_right (by omega), hP', hi, ← List.getD_eq_getElem?_getD]
   -- and a prefix of a run is the shorter run
-  have e2 : (genBits (r + 511) 1).getD n false = (genBits r 1).getD n false := by
-    have hs := genBits_add r 511 1
-    generalize genBits (r + 511) 1 = L at hs ⊢
-    have hr := genBits_length r 1
-    generalize genBits r 1 = R at hs hr ⊢
-    generalize genBits 511 (genState r 1) = T at hs
+  have e2 : (genBits (r + 511) g).getD n false = (genBits r g).getD n false := by
+    have hs := genBits_add r 511 g
+    generalize genBits (r + 511) g = L at hs ⊢
+    have hr := genBits_length r g
+    generalize genBits r g = R at hs hr ⊢
+    generalize genBits 511 (genState r g) = T at hs
     subst hs
     rw [List.getD_eq_getElem?_getD, List.getElem?_append_left (by omega), ← List.getD_eq_getElem?_getD]
   rw [e1, Nat.add_comm 511 r, e2]
+
+/-- every output index repeats with period 511 (stated on prefixes: the bit at index `n + 511` of any long enough
+    run equals the bit at index `n`) -/
+theorem bit_periodic (n m : Nat) (h : n + 511 < m) :
+    (genBits m 1).getD (n + 511) false = (genBits m 1).getD n false :=
+  bit_periodic_of_return 1 return_511 n m h
+
+/-- the same from every phase of the sequence (the register reached after any number `p` of steps) -/
+theorem bit_periodic_any_phase (p n m : Nat) (h : n + 511 < m) :
+    (genBits m (genState p 1)).getD (n + 511) false = (genBits m (genState p 1)).getD n false :=
+  bit_periodic_of_return _ (return_511_any_phase p) n m h
 
 /-- non-vacuity: the first nine output bits and a wrapped index -/
 example : genBits 9 1 = (genBits 520 1).drop 511 := by decide +kernel
